@@ -970,6 +970,14 @@ def run_cases(ctx: core.Ctx, cases: list[dict[str, Any]], stream: str) -> None:
                          ("urls", bool(d["urls"])), ("python", d["python"] is not None or d["python_union"] is not None)):
             if on:
                 ctx.count(f"feature:{feat}")
+        # hypothesis `Printers.extrasCanonical` of the validation theorem: every configured extra is canonicalize_name of a
+        # key of the extras table of its style (canonicalize_name itself is tied to the model by the canonicalize-name stream)
+        from packaging.utils import canonicalize_name as _canon
+        raw_extras = list(c["doc"].get("project", {}).get("optional-dependencies", {})) + \
+            list(c["doc"].get("tool", {}).get("poetry", {}).get("extras", {}))
+        if not set(r.inputs.get("extras", [])) <= {str(_canon(k)) for k in raw_extras}:
+            dis += 1
+            ctx.disagree(stream + ":extras-canonical", {"doc": to_jsonable(c["doc"])}, r.inputs.get("extras"), raw_extras)
         # (1) PKG-INFO == METADATA
         if r.pkg_info != r.metadata:
             ctx.violate("pkginfo-differs", "sdist PKG-INFO differs from wheel METADATA", witness(c))
@@ -1413,6 +1421,20 @@ def run_helpers(ctx: core.Ctx, n: int) -> None:
             dis += 1
             ctx.disagree("license-indent", x, want, m)
     ctx.stream("license-indent", len(lics), dis)
+    # canonicalize_name (names of extras): model vs packaging.utils.canonicalize_name
+    from packaging.utils import canonicalize_name
+    names = list(EXTRA_NAMES) + ["", "-", "a--b", "A_.-b", "..a..", "x y", "ex\tra", "Ex_A.b-C", "a\x0bb", "__", "a.B_c-D", "9-_-9"]
+    for _ in range(n):
+        names.append("".join(rng.choice("abcXYZ019-_. ") for _ in range(rng.randint(0, 10))))
+    rep = core.run_driver([core.line("canon", x) for x in names])
+    dis = 0
+    for x, m in zip(names, rep):
+        want = ["ok", str(canonicalize_name(x))]
+        ctx.case("canon:" + x)
+        if m != want:
+            dis += 1
+            ctx.disagree("canonicalize-name", x, want, m)
+    ctx.stream("canonicalize-name", len(names), dis)
     # python classifiers from a range (model: VParser + VRange.allowsAny) vs Package.all_classifiers
     from poetry.core.packages.project_package import ProjectPackage
     ranges = [p for p, *_ in PY_RANGES] + PY_UNIONS + [">=3.8.1", "<3", ">=3", "3.9.*", "!=3.9.*,>=3.7", ">3.8", "<=3.8", "==3.8.*", ">=3.14", "~=3.8", "^2.7", "<3.4", "3.7.3"]
